@@ -152,3 +152,9 @@ package y
 //@   ensures result == nil ==> w.doneUntil.v >= index
 //@   ensures w.doneUntil.v >= old(w.doneUntil.v)
 //@   assigns w.doneUntil.v
+
+//@ func SafeCopy
+//@   props C06
+//@   ensures[content] bytes(result) == old(bytes(src))
+//@   ensures[non-nil] result != nil
+//@   assigns a[0:cap(a)]
